@@ -113,9 +113,15 @@ def body_doc(cells, convert, font_shift=0):
 
 
 def check_body(ctx, cps, convert, packed):
+    expect_prefix = ""
     if packed:
         chars = [chr(c) for c in cps if not (convert and c == 0x3D)]
         cells = ["".join(chars[i:i + 32]) for i in range(0, len(chars), 32)]
+        if convert:
+            # mixed strings: a LaTeX command in front of the swept characters (the conversion pass then
+            # really rewrites the string); it must read back as its mapped character, the rest unchanged
+            cells = ["\\pm " + c for c in cells]
+            expect_prefix = "\u00b1 "
     else:
         cells = [chr(c) for c in cps]
     for start in range(0, len(cells), PER_DOC):
@@ -137,6 +143,8 @@ def check_body(ctx, cps, convert, packed):
         ctx.case((tuple(chunk[:3]), len(chunk), convert, packed), any(ord(ch) > 0x7F for c in chunk for ch in c))
         ctx.sample({"case": case, "file_bytes": len(raw), "non_ascii_bytes": sum(1 for b in raw if b >= 0x80)}, limit=3)
         judge_common(ctx, doc, case)
+        if expect_prefix:
+            padded = [(expect_prefix + c[len("\\pm "):]) if c else c for c in padded]
         got = [t for r in doc.rows() for t in r.texts]
         nch = sum(len(c) for c in chunk)
         ctx.count("codepoints_checked_in_body", nch)
